@@ -834,8 +834,9 @@ func (r *c20run) policies() {
 	// malformed policy strings: Go and the model must agree
 	for i := 0; i < r.c.Budget(1500, 40000); i++ {
 		p := r.g.policy(2)
-		if a, b, _ := c20PolicyCorners(p); a || b {
-			p = types.PolicyThreshold(1, []types.SpendPolicy{types.PolicyAbove(uint64(i)), types.PolicyPublicKey(pk)})
+		if i%5 == 0 { // make sure quoted key specifiers (with delimiters) are mutated too
+			p = types.PolicyThreshold(1, []types.SpendPolicy{types.PolicyAbove(uint64(i)),
+				{Type: types.PolicyTypeUnlockConditions{PublicKeys: []types.UnlockKey{r.g.unlockKey(), {Algorithm: types.NewSpecifier("a,b(\"]"), Key: []byte{1}}}, SignaturesRequired: r.g.u64()}}})
 		}
 		bad := c20Mutate(r.g, []byte(p.String()))
 		if !c20ModelSafeText(bad) {
